@@ -56,7 +56,7 @@ func init() {
 				}
 			}
 			return out
-		}(), seed+3, map[bool]int{false: 10, true: 64}[tier == "thorough"])
+		}(), seed+3, map[bool]int{false: 12, true: 64}[tier == "thorough"])
 		s.Instances = append(s.Instances, split...)
 		s.Pkgs = append(s.Pkgs, "movegen", "board", "attacks")
 		s.SliderSummary = true
@@ -64,7 +64,7 @@ func init() {
 		s.Bounds = append(s.Bounds,
 			"selection step: frames of 1..6 entries with arbitrary moves, weights and yielded prefix",
 			"staged run as a whole: the real Picker.Next iterated to exhaustion on an arbitrary board (64 arbitrary cells, arbitrary e.p. square and side) with ANY 15-bit hash move; generators, pseudo-legality test and rankers under contract: 0..2 (quick) / 0..3 (thorough) noisy and as many quiet moves, all arbitrary encodings that are noisy resp. quiet by the split specification VpNoisy; every generated move is yielded exactly once, nothing else is, the hash move comes first iff pseudo-legal",
-			"generator split: the REAL GenNoisy emits only captures/promotions/en-passant captures and the REAL GenNotNoisy none of them, from an arbitrary valid position, per (side, from-square) case with symbolic target and promotion bits: quick 10 from-squares per side, thorough all 64",
+			"generator split: the REAL GenNoisy emits only captures/promotions/en-passant captures and the REAL GenNotNoisy none of them, from an arbitrary valid position, per (side, from-square) case with symbolic target and promotion bits: quick 12 from-squares per side, thorough all 64",
 			"contract-level counterexamples of the staged run are reported only after the native sweep (real picker on the repo's test positions, every generated move and some foreign encodings as hash move) reproduces a failure; otherwise INCONCLUSIVE")
 		s.Stubs = append(s.Stubs, "staged run: movegen.GenNoisy/GenNotNoisy -> arbitrary duplicate-free lists of the given lengths obeying the split specification; Board.IsPseudoLegal -> membership in those lists (C05); MoveRanker.RankNoisy/RankQuiet -> arbitrary values in the capture bands / quiet band (this check's band obligations)")
 		s.Outside = append(s.Outside, "positions with more than 3+3 generated moves are covered only through the selection-step induction (the stage logic does not depend on the list lengths beyond the loops unrolled here)")
